@@ -63,6 +63,7 @@ type HistCfg struct {
 	NoInitialSwap bool
 	SlowPays      bool // payment calls that block longer than the retry budget
 	PeerMoves     bool // the counterparty of a live swap sends cancel / a useless coop_close at any point
+	HeightLags    bool // height queries may answer a tip below the true one (lagging back-end)
 	RecoverFaults bool // a service call fails once while the restarted node recovers its swaps
 	Eager         bool // per history: watches / notifiers registered for a past event call back at once on their own goroutine
 	Weights       map[string]int
@@ -228,9 +229,20 @@ func (h *Hist) reboot(n *sim.Node, deliverBeforeRecover bool) {
 	rf := h.recoverFault
 	h.recoverFault = ""
 	if rf == "" && h.Cfg.RecoverFaults && rapid.IntRange(0, 2).Draw(h.T, "recoverFaultWanted") == 0 {
-		rf = rapid.SampledFrom(recoverFaultCalls).Draw(h.T, "recoverFault")
+		calls := recoverFaultCalls
+		if h.Cfg.HeightLags {
+			calls = append([]string{"heightlag", "heightlag"}, calls...)
+		}
+		rf = rapid.SampledFrom(calls).Draw(h.T, "recoverFault")
 	}
-	if rf != "" {
+	if rf == "heightlag" {
+		// the chain back-end is still catching up when the daemon comes up
+		for _, c := range h.Cfg.Chains {
+			n.HeightLag[c] = []uint32{3, 3}
+		}
+		h.opf("lagging-heights-during-recovery(%s)", n.Name)
+		h.class("recover-fault:heightlag")
+	} else if rf != "" {
 		n.Faults[rf] = []sim.FaultKind{sim.FaultBefore}
 		h.opf("fault-during-recovery(%s,%s)", n.Name, rf)
 		h.class("recover-fault:" + rf)
@@ -427,6 +439,22 @@ func (h *Hist) actFault() {
 	n.Faults[call] = q
 	h.opf("fault(%s,%s,kind=%d,skip=%d,n=%d)", n.Name, call, kind, skip, cnt)
 	h.class("fault:" + call)
+}
+
+// actHeightLag: the node's chain back-end answers its next height queries with a tip below the true one.
+func (h *Hist) actHeightLag() {
+	t := h.T
+	n := rapid.SampledFrom(h.nodes()).Draw(t, "lagNode")
+	chain := rapid.SampledFrom(h.Cfg.Chains).Draw(t, "lagChain")
+	lag := rapid.SampledFrom([]uint32{1, 2, 5, 70}).Draw(t, "lag")
+	skip := rapid.IntRange(0, 2).Draw(t, "lagSkip")
+	var q []uint32
+	for i := 0; i < skip; i++ {
+		q = append(q, 0)
+	}
+	n.HeightLag[chain] = append(q, lag)
+	h.opf("heightlag(%s,%s,-%d,skip=%d)", n.Name, chain, lag, skip)
+	h.class("height-lag")
 }
 
 func (h *Hist) actPayPlan() {
@@ -697,6 +725,9 @@ func (h *Hist) stdActions() map[string]func() {
 		"paid":     h.actPaymentNotif,
 		"settle":   h.actSettle,
 		"progress": h.actProgress,
+	}
+	if h.Cfg.HeightLags {
+		m["heightlag"] = h.actHeightLag
 	}
 	if h.Cfg.Timeouts {
 		m["timeout"] = h.actTimeout
